@@ -385,4 +385,13 @@ def rule_public_w(ck):
             (o.ok(want) if got == want else o.fail('%s holds %s of the kernel result, expected %s' % (fld, got, want)))
 
 
-RULES = [rule_t, rule_binary_t, rule_w, rule_public_t, rule_public_binary, rule_public_w]
+def rule_rates_source(ck):
+    """per-event rates and totals come from forecast.data through target_event_rates/get_rates: the scaled view must be a fresh
+    array and lookups element-wise (shared C11-D1, C11-D3)."""
+    from . import c11
+    ck.clause('D4 (shared C11-D1/D3: rate lookup and non-cumulative scaling)')
+    c11.rule_scaling(ck)
+    c11.rule_lookup(ck)
+
+
+RULES = [rule_t, rule_binary_t, rule_w, rule_public_t, rule_public_binary, rule_public_w, rule_rates_source]
